@@ -207,7 +207,7 @@ pub fn run(tier: &str, seed: u64) -> Rep {
     let mut total = Rep::new();
     total.rule = "header byte soup".to_string();
     let (n, ops): (usize, usize) = match tier {
-        "quick" => (4000, 300),
+        "quick" => (100_000, 300),
         "thorough" => (1_000_000, 300),
         _ => (1, 40),
     };
